@@ -44,7 +44,7 @@ def run(ctx):
 
     chk = None
     if ctx.thorough and ok_make:
-        chk = vlib.coqchk_lib(ctx, "C16", ["Roundtrip", "Step", "Run", "Fresh", "Commit", "Corr"])
+        chk = vlib.coqchk_lib(ctx, "C16", ["Roundtrip", "Step", "Run", "Fresh", "Commit", "Layout", "Corr"])
         ctx.cov["coqchk"] = {"axioms": chk["axioms"], "ok": chk["ok"]}
         if not chk["ok"]:
             ctx.violation("coqchk does not accept the compiled C16 library or reports axioms",
@@ -82,7 +82,7 @@ def run(ctx):
     ctx.cov.update({
         "obligations": pr["obligations"] if pr else 0,
         "discharged": pr["discharged"] if pr else 0,
-        "property_theorems": ["C16_roundtrip", "C16_assemble_total", "C16_qm31_rejected", "C16_step_sound", "C16_run_sound", "C16_step_writes_fresh", "C16_step_commit_total",
+        "property_theorems": ["C16_roundtrip", "C16_assemble_total", "C16_qm31_rejected", "C16_step_sound", "C16_run_sound", "C16_program_run_sound", "C16_program_example", "C16_step_writes_fresh", "C16_step_commit_total",
                               "C16_example", "C16_step_example", "C16_run_example"],
         "print_assumptions": (pr or {}).get("axioms", []),
         "evaluations": n_cases,
